@@ -45,6 +45,7 @@
 #endif
 
 #include <stdlib.h>
+#include <ctype.h>
 #include <stdio.h>
 #include <string.h>
 
@@ -301,9 +302,19 @@ static void write_objective (
 	int nterms = 0;
 	EGLPNUM_TYPENAME_ILLwrite_lp_state ln, *line = &ln;
 
-	if (lp->probname != NULL)
+	if (lp->probname != NULL && lp->probname[0] != '\0')
 	{
-		EGLPNUM_TYPENAME_ILLprint_report (lp, "Problem\n %s\n", lp->probname);
+		/* the reader takes one field for the name: an empty name gets no
+		 * section, white space inside a name is replaced */
+		char *pname = strdup (lp->probname);
+		size_t pi;
+
+		for (pi = 0; pname && pname[pi]; pi++)
+			if (isspace ((unsigned char) pname[pi]))
+				pname[pi] = '_';
+		if (pname)
+			EGLPNUM_TYPENAME_ILLprint_report (lp, "Problem\n %s\n", pname);
+		free (pname);
 	}
 	if (lp->objsense == EGLPNUM_TYPENAME_ILL_MIN)
 	{
